@@ -92,13 +92,13 @@ func C16(c *run.Ctx) {
 			boundary := now.Equal(d.exp)
 			switch ev {
 			case "tick":
-				time.Sleep(7 * time.Second)
+				world.Sleep(7 * time.Second)
 				hist = append(hist, "advance 7s")
 			case "expire":
 				if !expired {
-					time.Sleep(d.exp.Add(time.Second).Sub(now))
+					world.Sleep(d.exp.Add(time.Second).Sub(now))
 				} else {
-					time.Sleep(time.Minute)
+					world.Sleep(time.Minute)
 				}
 				hist = append(hist, "advance past expiry")
 			case "accept", "reject":
